@@ -287,6 +287,11 @@ def call_method(engine, st, fr, recv, mname, args, kwargs, star, starkw, node):
                 yield r
     elif kind in ("executor", "Executor", "ThreadPoolExecutor", "ProcessPoolExecutor"):
         if kind != "executor" and name == "__init__":
+            # stdlib base-class constructor (assumed contract: initialises the pool, touches no library state; may raise
+            # on bad arguments).  Recorded so that contracts can talk about what it was given.
+            ev = Event("call", recv=Val.id(recv.t), meth="__init__", args=[engine.to_val(st, x) for x in a],
+                       kwargs={k: engine.to_val(st, v) for k, v in kwargs.items()}, star=star, starkw=starkw, site=engine.site(fr, node), held=list(st.held), depth=fr.depth)
+            st.trace.append(ev)
             yield st, None
             return
         for r in b_future.executor_method(engine, st, fr, recv, name, a, kwargs, star, starkw, node):
